@@ -86,7 +86,9 @@ def good_data(fam, cfg, rs, n, w, loud=False):
     if loud and fam in PARTITIONED:
         # another value BRACKET than the accepted batches (automatic classes: 9 / 64 / 256): a class map left behind by a refused
         # first call would then differ from the one the first accepted batch must build
-        lo, hi = (10, 41) if style == 'small' else (0, 4)
+        # (small style: other classes of the SAME bracket - a larger bracket accepted into 9-class accumulators through a stale class
+        #  map would make the numba kernels write out of bounds under a mutant and kill the check instead of reporting it)
+        lo, hi = (4, 9) if style == 'small' else (0, 4)
         return rs.randint(lo, hi, (n, w)).astype('uint8')
     if fam == 'dpa':
         d = rs.randint(0, 2, (n, w))
